@@ -123,6 +123,21 @@ def _r06_2(res, P, cfgname):
                 txt = sym.term_str(c[1], 300) if c[0] != 'rel' else sym.term_str(c[2], 300) + sym.term_str(c[3], 300)
                 if any(k in txt for k in ("trailing_zeros", "are_low_bits_nonzero", "split_bits", "is_multiple_of", "is_power_of_two")):
                     ok = True
+            if not ok:
+                # the test may be stored in a local first (`let lossy = match x.trailing_zeros() {..}; if lossy {..}`):
+                # follow the data and control dependences of every switch that dominates the shift and can bypass it
+                body = f["mir"]
+                start = []
+                for sb, blk in enumerate(body["bbs"]):
+                    tt = blk["t"]
+                    if tt["k"] == "switch" and sb != bb and cfg.dominates(sb, bb) and not all(bb in cfg.reach_from(x) for x in cfg.succ[sb]):
+                        mir.walk_places(tt["d"], lambda p: start.append(p["l"]))
+                if start:
+                    _locs, calls = mir.backward_slice(body, start, control=True)
+                    for cb in calls:
+                        cp2 = mir.callee_path(body["bbs"][cb]["t"]) or ""
+                        if any(k in cp2 for k in ("trailing_zeros", "are_low_bits_nonzero", "split_bits", "is_multiple_of", "is_power_of_two")):
+                            ok = True
             key = "TryFrom<%s> for %s: >> guarded" % (a, b)
             if ok:
                 res.ok("R06.2", cfgname, key, sample=dict(function=f["p"]))
